@@ -62,7 +62,11 @@ def manual_cases(draw):
 
 def shaped(tier):
     def gen():
-        specs = [(1, 40, 3, True), (2, 3, 120, False), (3, 1, 300, True), (4, 30, 1, False)]
+        specs = [(1, 40, 3, True), (2, 3, 120, False), (3, 1, 300, True), (4, 30, 1, False),
+                 # sizes around typical tuning knobs (8, 10, 12, 16, 32, 64 tiles per row / column)
+                 (5, 9, 1, False), (6, 11, 2, True), (7, 13, 1, False), (8, 17, 2, True), (9, 33, 1, False),
+                 (10, 65, 1, True), (11, 1, 9, False), (12, 2, 11, True), (13, 1, 13, False), (14, 2, 17, False),
+                 (15, 1, 33, True), (16, 1, 65, False), (17, 100, 1, False), (18, 1, 101, True)]
         if tier == "thorough":
             specs += [(47, 10, 40, False), (5, 3, 400, True), (41, 5, 10, True), (40, 5, 5, True)]
         for seed, width, length, fd in specs:
